@@ -38,10 +38,11 @@ ASSUMPTIONS = [
 TIMEOUT = {"quick": 60, "thorough": 240}
 DEADLINE = {"quick": 75, "thorough": 1100}
 MIN_DECIDING = {"quick": 25, "thorough": 300}
-NCASES = {"quick": 56, "thorough": 1100}
+NCASES = {"quick": 80, "thorough": 2400}
 
 KEY_P21 = "sample-time-limit-taken-over-non-integer-n"
 KEY_CONST = "bif-variable-name-becomes-symbolic-constant"
+KEY_FLOAT = "categorical-remainder-probability-rounded-in-floating-point"
 
 _hooks = {}
 
@@ -475,18 +476,22 @@ def _run(case, tier, spec, res, tmp):
             _viol(res, "answer-unparseable", f"{flag} \"{q['string']}\" printed {printed[:200]!r}: {e}",
                   key=KEY_CONST if consts else None, query=q["string"])
             continue
-        raw_ok = _raw_moments_ok(q, qobj, codeq)
         if val.free_symbols:
             symnames = sorted(s.name for s in val.free_symbols)
+            raw_ok = _raw_moments_ok(q, qobj, codeq)
+            fw = _float_remainder_witness(codeq)
             key = None
             lim = None
+            limf = None
             if symnames == ["n"]:
                 try:
                     lim = sympy.limit_seq(val, nsym)
                 except Exception:
                     lim = None
-                if lim is not None and lim.is_Rational and Fraction(int(lim.p), int(lim.q)) == truth:
-                    key = KEY_P21
+                if lim is not None and lim.is_Rational:
+                    limf = Fraction(int(lim.p), int(lim.q))
+                    if limf == truth or (fw and _close(limf, truth)):
+                        key = KEY_P21
             if key is None and consts:
                 key = KEY_CONST
             _viol(res, "answer-not-a-number",
@@ -494,18 +499,36 @@ def _run(case, tier, spec, res, tmp):
                   + (f"; its limit for integer n is {lim}" if lim is not None else "")
                   + (f"; raw closed forms agree with the reference engine at n=1..3: {raw_ok}" if raw_ok is not None else ""),
                   key=key, query=q["string"], qtype=q["type"], polar=printed[:300], truth=str(truth))
+            if key == KEY_P21 and limf != truth:
+                # second, independent mechanism: even the limit of the printed formula is not the exact answer
+                _viol(res, "answer-wrong",
+                      f"{flag} \"{q['string']}\": the limit {lim} of the printed formula differs from the truth {truth} "
+                      f"(relative error {float(abs(limf - truth) / abs(truth)):.3g}); Polar parsed '{fw}' with probabilities that do not sum to 1",
+                      key=KEY_FLOAT, query=q["string"], qtype=q["type"], polar=str(lim), truth=str(truth))
             continue
         ok = False
+        got = None
         if val.is_Rational:
-            ok = Fraction(int(val.p), int(val.q)) == truth
+            got = Fraction(int(val.p), int(val.q))
+            ok = got == truth
         elif val.is_Float:
-            ok = abs(Fraction(str(val)) - truth) <= Fraction(1, 10 ** 9) * max(1, abs(truth))
+            got = Fraction(str(val))
+            ok = abs(got - truth) <= Fraction(1, 10 ** 9) * max(1, abs(truth))
             res["features"].append("float-answer")
         if not ok:
+            raw_ok = _raw_moments_ok(q, qobj, codeq)
+            fw = _float_remainder_witness(codeq)
+            key = None
+            if consts:
+                key = KEY_CONST
+            elif fw and got is not None and _close(got, truth):
+                key = KEY_FLOAT
             _viol(res, "answer-wrong",
                   f"{flag} \"{q['string']}\" printed {printed[:200]}; truth {truth} (P(evidence) = {pev})"
+                  + (f"; relative error {float(abs(got - truth) / abs(truth)):.3g}" if got is not None and truth != 0 else "")
+                  + (f"; Polar parsed '{fw}' with probabilities that do not sum to 1" if fw else "")
                   + (f"; raw closed forms agree with the reference engine at n=1..3: {raw_ok}" if raw_ok is not None else ""),
-                  key=KEY_CONST if consts else None, query=q["string"], qtype=q["type"], polar=printed[:300], truth=str(truth))
+                  key=key, query=q["string"], qtype=q["type"], polar=printed[:300], truth=str(truth))
     sample["queries"] = qrows
     if res["violations"]:
         res["verdict"] = "violated"
@@ -534,5 +557,40 @@ def _raw_moments_ok(q, qobj, codeq):
                 if not P.values_equal(pv, eng.moment(dists[n], g)):
                     return False
         return True
+    except Exception:
+        return None
+
+
+def _close(a, b, rel=Fraction(1, 10 ** 6)):
+    return abs(a - b) <= rel * max(abs(a), abs(b))
+
+
+def _float_remainder_witness(code):
+    """diagnostic only: parse the generated program with Polar's own parser and return the first categorical
+    assignment whose probabilities (after Polar's float -> rational conversion of the implicit last probability
+    `1-p1-...`) do not sum to exactly 1; None if there is none / on any error."""
+    try:
+        import sympy
+        from inputparser import Parser
+        prog = Parser().parse_string(code)
+        found = []
+
+        def walk(stmts):
+            for st in stmts:
+                if found:
+                    return
+                probs = getattr(st, "probabilities", None)
+                if probs is not None and len(probs) > 1:
+                    tot = sum((sympy.Rational(str(x)) for x in probs), sympy.Integer(0))
+                    if tot != 1:
+                        found.append(str(st))
+                        return
+                if hasattr(st, "branches"):
+                    for b in st.branches:
+                        walk(b)
+                    if getattr(st, "else_branch", None):
+                        walk(st.else_branch)
+        walk(prog.loop_body)
+        return found[0] if found else None
     except Exception:
         return None
